@@ -25,7 +25,7 @@ Record writer := mkW { w_key : N; w_open : bool; w_buf : bytes; w_seen : bytes; 
 (* entries of the event loop's ready queue *)
 Inductive qitem :=
 | QClose (i : nat)      (* finished.add_done_callback(lambda: self.close_handle())   registered 1st *)
-| QRemove (k : N)       (* remove_writer: closes over the KEY only                   registered 2nd *)
+| QRemove (k : N) (i : nat)  (* remove_writer: deletes writers[k] only if it still is writer i   registered 2nd *)
 | QWfc (i : nat)        (* writer_finished_callback                                  registered 3rd *)
 | QTask (b : bytes)     (* first step of the task created by _write_blob(b) *)
 | QSetState             (* BlobFile: executor future finished -> call_soon_threadsafe(_set_state) *)
@@ -78,8 +78,15 @@ Fixpoint map_set (k : N) (i : nat) (m : list (N * nat)) : list (N * nat) :=
 Fixpoint map_del (k : N) (m : list (N * nat)) : list (N * nat) :=
   match m with [] => [] | (k', j) :: r => if k' =? k then r else (k', j) :: map_del k r end.
 
+(* remove_writer (as repaired by 597bcef): `if self.writers.get(key) is writer: del self.writers[key]` *)
+Definition map_del_if (k : N) (i : nat) (m : list (N * nat)) : list (N * nat) :=
+  match lookup k m with
+  | Some j => if Nat.eqb j i then map_del k m else m
+  | None => m
+  end.
+
 (* the three done-callbacks of writer i's future, in registration order *)
-Definition cbs (i : nat) (k : N) : list qitem := [QClose i; QRemove k; QWfc i].
+Definition cbs (i : nat) (k : N) : list qitem := [QClose i; QRemove k i; QWfc i].
 Definition fire (i : nat) (w : writer) (f : bool) : list qitem := if f then cbs i (w_key w) else [].
 
 (* apply a writer-level transition (new writer, "the future just became done") to writer i *)
@@ -185,7 +192,7 @@ Definition done_cbs : list qitem := QUpdate :: (if cb then [QCompleted] else [])
 Definition run_item (it : qitem) (s : state) : state :=
   match it with
   | QClose i => close_handle i s
-  | QRemove k => set_map (map_del k (s_map s)) s
+  | QRemove k i => set_map (map_del_if k i (s_map s)) s
   | QWfc i => match nth_error (s_ws s) i with
               | Some w => match w_fut w with
                           | FOk b => save_verified b (close_others i s)
@@ -214,7 +221,7 @@ Fixpoint iter (n : nat) (s : state) : state :=
 (* enough steps to empty the queue (Proofs.C01.drain_quiescent) *)
 Definition wt (it : qitem) : nat :=
   match it with
-  | QClose _ | QRemove _ | QNop | QUpdate | QCompleted => 1
+  | QClose _ | QRemove _ _ | QNop | QUpdate | QCompleted => 1
   | QWfc _ => 4 | QTask _ => 3 | QWakeup => 3 | QSetState => 5
   end.
 Definition qweight (q : list qitem) : nat := fold_right (fun it a => (wt it + a)%nat) O q.
